@@ -422,7 +422,7 @@ func (r *run) doWorld(spec keys.WorldSpec, shrink bool) {
 func shrinkWorld(spec keys.WorldSpec, sig string, rep *hx.Report) (keys.WorldSpec, bool) {
 	scratch := hx.NewReport("C11", "", 0, "")
 	try := func(recs []keys.RecSpec) (keys.WorldSpec, bool) {
-		s := keys.WorldSpec{NIPs: len(recs) + 1, Sizes: []string{"", "1"}, Pages: 0, Batch: spec.Batch}
+		s := keys.WorldSpec{NIPs: len(recs) + 1, Sizes: []string{"", "1"}, Pages: 0, Batch: spec.Batch, Regions: spec.Regions}
 		for i, r := range recs {
 			r.IPIdx = i
 			s.Recs = append(s.Recs, r)
@@ -433,6 +433,15 @@ func shrinkWorld(spec keys.WorldSpec, sig string, rep *hx.Report) (keys.WorldSpe
 			}
 		}
 		return s, false
+	}
+	if spec.Regions == 3 {
+		// ordering defects need ips in all regions, not records: try the bare pool first
+		s := keys.WorldSpec{NIPs: spec.NIPs, Sizes: spec.Sizes, Pages: spec.Pages, Regions: 3}
+		for _, v := range keys.RunWorld(s, scratch).Viol {
+			if v.Sig == sig {
+				return s, true
+			}
+		}
 	}
 	for _, r := range spec.Recs {
 		if s, ok := try([]keys.RecSpec{r}); ok {
@@ -674,6 +683,15 @@ func (r *run) generate() {
 		}
 		r.doWorld(randomWorld(r, nips, rng.Intn(nips+1), allSizes, 0), true)
 	}
+	// pools spread over three address regions (both tiers): the order of the list must be one total order, and the
+	// page walks must agree with it whatever the map iteration order was
+	for _, nips := range []int{6, 9, 12} {
+		for rep := 0; rep < e.N(2, 6); rep++ {
+			w := randomWorld(r, nips, nips-1, []string{"", "1", "2", "4"}, 0)
+			w.Regions = 3
+			r.doWorld(w, true)
+		}
+	}
 	// the kind zoo over HTTP (both tiers): one record per zoo kind, with and without a pool, every entry posted back
 	// verbatim / with one-field variants / in multi-entry requests
 	for part := 0; part < 2; part++ {
@@ -700,6 +718,9 @@ func (r *run) generate() {
 func randomWorld(r *run, nips, nrecs int, sizes []string, pages int) keys.WorldSpec {
 	rng := r.e.Rng
 	spec := keys.WorldSpec{NIPs: nips, Sizes: sizes, Pages: pages, Batch: 2 + rng.Intn(3)}
+	if rng.Intn(3) == 0 {
+		spec.Regions = 3
+	}
 	perm := rng.Perm(nips)
 	used := map[string]bool{}
 	nss := []string{"ns1", "ns2", "a", keys.Label(rng, 5)}
